@@ -254,7 +254,7 @@ pub fn execute(scn: &Scenario, ctx: &mut Ctx) {
                 match &at_extent {
                     None => at_extent = Some((delivered, out)),
                     Some((at0, o0)) => {
-                        if o0.class != out.class || o0.kind != out.kind {
+                        if o0.class != out.class && !(o0.is_rejection() && out.is_rejection()) {
                             let (at0, o0) = (*at0, *o0);
                             ctx.violate(Prop::C06, "locality/class-changed", || {
                                 format!("{}: declared extent {} bytes; answered {} with {} bytes buffered and {} with {} bytes buffered", kind, e, o0.show(), at0, out.show(), buf.len())
@@ -282,7 +282,7 @@ pub fn execute(scn: &Scenario, ctx: &mut Ctx) {
                 // appending bytes leaves the parsed value unchanged and only extends the remainder
                 let constrained = first_out.is_ok() || extent.map(|e| *at >= e).unwrap_or(false);
                 if constrained {
-                    if out.class != first_out.class || out.kind != first_out.kind {
+                    if out.class != first_out.class && !(out.is_rejection() && first_out.is_rejection()) {
                         ctx.violate(Prop::C06, "locality/class-changed", || {
                             format!("{}: answered {} with {} bytes buffered and {} with {} bytes buffered (declared extent {:?})", kind, first_out.show(), at, out.show(), buf.len(), extent)
                         });
@@ -330,7 +330,7 @@ pub fn execute(scn: &Scenario, ctx: &mut Ctx) {
         if let (Some((oa, da)), Some((ob, db))) = (a, b) {
             ctx.log(0xa17, oa.code(), ob.code());
             ctx.count("oracle/alternative_trailing_string_comparisons", 1);
-            if oa.class != ob.class || oa.kind != ob.kind {
+            if oa.class != ob.class && !(oa.is_rejection() && ob.is_rejection()) {
                 ctx.violate(Prop::C06, "locality/class-changed", || format!("{}: {} when followed by one {}-byte string, {} when followed by another of the same length", kind, oa.show(), trail.len(), ob.show()));
             } else if da != db {
                 ctx.violate(Prop::C06, "locality/value-changed", || format!("{}: the parsed value / consumption / slice positions depend on the CONTENT of the {} bytes that follow the structure", kind, trail.len()));
